@@ -150,6 +150,15 @@ def cma_state(designer):
   return json.dumps(st, sort_keys=True)
 
 
+def cma_counters(designer):
+  """(generation counter, number of pending evaluated members): functions of HOW MANY trials were incorporated only."""
+  from vizier.utils import json_utils  # pylint: disable=g-import-not-at-top
+  md = designer.dump()
+  st = json.loads(md.ns('cma')['state'], object_hook=json_utils.numpy_hook)
+  pend = json.loads(md.ns('cma').get('pending_population', default='{}'), object_hook=json_utils.numpy_hook)
+  return (int(np.asarray(st.get('g', 0))), len(pend.get('labels', [])))
+
+
 def population_canon(designer):
   pop = designer.population
   parts = []
